@@ -1,16 +1,18 @@
 package main
 
 import (
-	"time"
 	"bytes"
 	"context"
 	"encoding/json"
 	"errors"
 	"flag"
 	"fmt"
+	"io"
 	"math/rand"
+	"net"
 	"os"
 	"strconv"
+	"time"
 
 	"github.com/SAP/go-dblib/asetypes"
 	"github.com/SAP/go-dblib/tds"
@@ -43,6 +45,8 @@ type txRunner struct {
 	scn   int
 
 	sizeOps int
+	failing bool // the transport has been told to fail (FailWrite)
+	dead    bool // a call got stuck: the scenario is given up
 }
 
 func newInfo() *tds.Info {
@@ -57,6 +61,7 @@ func (r *txRunner) reset(desc interface{}) error {
 		r.mc.Close()
 	}
 	r.mc = newMemConn()
+	r.failing, r.dead = false, false
 	reader := r.chanN > 0
 	if reader {
 		// the peer acknowledges logical channel setups (header-only PROTACK packet)
@@ -98,8 +103,33 @@ func (r *txRunner) reset(desc interface{}) error {
 	return nil
 }
 
+var errStuck = errors.New("the call did not return within the bound")
+
+// call runs a send-side call of the library; once the transport has been told to fail, a call that does not come
+// back within 3 s is reported as stuck (a failed write must surface as an error, C14) and the scenario is given up
+func (r *txRunner) call(f func() error) error {
+	if !r.failing {
+		return f()
+	}
+	if r.dead {
+		return errStuck
+	}
+	ch := make(chan error, 1)
+	go func() { ch <- f() }()
+	select {
+	case err := <-ch:
+		return err
+	case <-time.After(3 * time.Second):
+		r.dead = true
+		r.mc.Close()
+		return errStuck
+	}
+}
+
 func errClass(err error) string {
 	switch {
+	case err == errStuck:
+		return "stuck"
 	case err == nil:
 		return "ok"
 	case errors.Is(err, context.Canceled), errors.Is(err, context.DeadlineExceeded):
@@ -232,7 +262,17 @@ func (r *txRunner) apply(op txOp) {
 		// the transport fails after op.N more bytes (C14: failures during a request write)
 		r.mc.mu.Lock()
 		r.mc.failAfter = r.mc.wrote + op.N
+		// the way the write fails, for good: reset, timeout (a net.Error that says so), closed pipe
+		switch op.N % 4 {
+		case 1:
+			r.mc.failErr = failErr{"i/o timeout"}
+		case 2:
+			r.mc.failErr = io.ErrClosedPipe
+		case 3:
+			r.mc.failErr = &net.OpError{Op: "write", Net: "tcp", Err: failErr{"i/o timeout"}}
+		}
 		r.mc.mu.Unlock()
+		r.failing = true
 		r.tr.Emit(Ev{"ev": "WriteFail", "after": op.N})
 	case "Type":
 		r.ch.CurrentHeaderType = tds.PacketHeaderType(op.N)
@@ -263,7 +303,7 @@ func (r *txRunner) apply(op txOp) {
 		pkg, enc := r.pkg(op)
 		r.msg = append(r.msg, enc...)
 		r.tr.Emit(Ev{"ev": "Queue", "n": len(enc), "ctx": cx, "typ": int(r.ch.CurrentHeaderType)})
-		err := r.ch.QueuePackage(r.ctxFor(op), pkg)
+		err := r.call(func() error { return r.ch.QueuePackage(r.ctxFor(op), pkg) })
 		before := r.npkts
 		r.wires()
 		if r.npkts-before != op.Npk && op.Body > 0 {
@@ -272,7 +312,7 @@ func (r *txRunner) apply(op txOp) {
 		r.tr.Emit(Ev{"ev": "QueueEnd", "st": errClass(err), "typ": int(r.ch.CurrentHeaderType)})
 	case "Flush":
 		r.tr.Emit(Ev{"ev": "Flush", "n": 0, "ctx": cx, "typ": int(r.ch.CurrentHeaderType)})
-		err := r.ch.SendRemainingPackets(r.ctxFor(op))
+		err := r.call(func() error { return r.ch.SendRemainingPackets(r.ctxFor(op)) })
 		before := r.npkts
 		r.wires()
 		if r.npkts-before != op.Npk && op.Body > 0 { // model drift (TxPath.tla predicts the packets of every step)
@@ -296,7 +336,7 @@ func (r *txRunner) apply(op txOp) {
 		pkg, enc := r.pkg(op)
 		r.msg = append(r.msg, enc...)
 		r.tr.Emit(Ev{"ev": "Send", "n": len(enc), "ctx": cx, "typ": int(r.ch.CurrentHeaderType)})
-		err := r.ch.SendPackage(r.ctxFor(op), pkg)
+		err := r.call(func() error { return r.ch.SendPackage(r.ctxFor(op), pkg) })
 		r.wires()
 		r.tr.Emit(Ev{"ev": "FlushEnd", "st": errClass(err), "typ": int(r.ch.CurrentHeaderType)})
 		r.msg, r.wired = nil, 0
